@@ -89,6 +89,9 @@ class Schema:
     def __ne__(self, other: "Schema") -> bool:
         return not self.__eq__(other)
 
+    def __hash__(self) -> int:
+        return hash((self._name, self._parent))
+
     @ignore_copy
     def __getattr__(self, item: str) -> "Table":
         return Table(item, schema=self)
@@ -191,6 +194,9 @@ class Table(Selectable):
             return False
 
         if self.alias != other.alias:
+            return False
+
+        if str(self._for) != str(other._for) or str(self._for_portion) != str(other._for_portion):
             return False
 
         return True
